@@ -42,7 +42,7 @@ type c06PickCase struct {
 	Seam     string `json:"seam"`
 	Holders  []int  `json:"holders_per_cpu"`
 	Reserved []int  `json:"reserved_cpus"`
-	Result   []int  `json:"result"`
+	Result   []int  `json:"result_cpus"`
 }
 
 var c06OccModes = []string{"held-by-pod(excl none)", "held-by-pod(PCPULevel)", "held-by-pod(NUMANodeLevel)", "reserved", "mixed reserved/PCPULevel/NUMANodeLevel"}
@@ -169,6 +169,13 @@ func TestVerifC06Pick(t *testing.T) {
 		}
 		return []int{0, 4}, []int{0, 2}
 	}
+	var rp *c06PickCase
+	{
+		var c c06PickCase
+		if _, ok := env.ReplayData(&c); ok {
+			rp = &c
+		}
+	}
 	res := mc.NewResult("C06", "pick", "enumeration")
 	res.Rule = "every topology sockets{1,2} x NUMA/socket{1,2} x cores/NUMA{1,2,3} x threads{1,2} with at most the stated number of CPUs, sequential and interleaved-HT id numbering; EVERY subset of the CPUs as the free set; the non-free CPUs " +
 		"held by pods of each exclusive policy / reserved / mixed; sharing limit 1, or 2 with some free CPUs already held once; n in 0..|free|+1; bind policy {default, FullPCPUs, SpreadByPCPUs} x {preferred, required}; " +
@@ -189,6 +196,9 @@ func TestVerifC06Pick(t *testing.T) {
 			d := rx.Decode(i, make([]int, 0, 4))
 			freeMask, occMode, refMode, n := uint32(d[0]), occSel[d[1]], c06RefModes[refSel[d[2]]], d[3]
 			if n > bits.OnesCount32(freeMask)+1 {
+				return
+			}
+			if rp != nil && (rp.Topology != l.Name || fmt.Sprint(rp.Free) != fmt.Sprint(c06MaskList(freeMask)) || rp.OccMode != c06OccModes[occMode] || rp.MaxRef != refMode.MaxRef || rp.Share != refMode.Name || rp.N != n) {
 				return
 			}
 			if freeMask == l.All && d[1] > 0 {
@@ -220,6 +230,9 @@ func TestVerifC06Pick(t *testing.T) {
 				for bi, bp := range c06BindPolicies {
 					for _, excl := range c06ExclPolicies {
 						for _, strat := range c06Strategies {
+							if rp != nil && (rp.Pref != (pref == 1) || rp.Excl != string(excl) || rp.Strategy != string(strat) || (rp.Bind != bp.Name && !(rp.Seam == "take" && c06BindPolicies[bi].Policy == bp.Policy))) {
+								continue
+							}
 							mk := func(seam string, result []int) c06PickCase {
 								return c06PickCase{Topology: l.Name, Free: c06MaskList(freeMask), OccMode: c06OccModes[occMode], MaxRef: refMode.MaxRef, Share: refMode.Name,
 									N: n, Bind: bp.Name, Excl: string(excl), Strategy: string(strat), Pref: pref == 1, Seam: seam, Holders: w.holders, Reserved: c06MaskList(w.reserved), Result: result}
@@ -227,6 +240,9 @@ func TestVerifC06Pick(t *testing.T) {
 							judge := func(seam string, set cpuset.CPUSet, reportedSatisfied bool) {
 								loc.Count(seam+"_success", 1)
 								mask, bad := c06SetToMask(set, l.N)
+								if rp != nil {
+									fmt.Printf("REPLAY %+v\n", mk(seam, set.ToSlice()))
+								}
 								if bad != "" {
 									res.Violate(mc.Violation{Key: "C06|pick|" + seam + "|malformed-set", What: bad, Replay: mk(seam, set.ToSlice())})
 									return
